@@ -245,13 +245,17 @@ Section Proofs.
     step U self true s (ODel R removed true) = (s', ROk) -> no_record s' R.
   Proof.
     intros H Hl Hs. destruct (reach_inv ops s H Hl) as [I D].
-    cbn [step] in Hs. unfold del_file in Hs. destruct (trav U (store s) R) as [f|]; [|discriminate].
-    cbn [negb] in Hs. injection Hs as <-. cbn. unfold no_record. cbn.
+    cbn [step] in Hs. rewrite del_file_unfold in Hs. destruct (trav U (store s) R) as [f|]; [|discriminate].
+    pose proof (init_chunk_pyramid_frame U s R) as F.
+    destruct (init_chunk_pyramid U s R) as [s0 okp]. cbn [fst] in F.
+    pose proof (disc_ok_same3 _ _ (frame_same3 U _ _ F) D) as D0.
+    destruct okp; cbn [negb] in Hs; [|discriminate].
+    unfold del_file_tail in Hs. cbn [negb] in Hs. injection Hs as <-. cbn. unfold no_record. cbn.
     repeat split; try apply aget_adel_eq; intros o; try apply tget2_adel_eq.
-    fold (del_keys R (inner R (cd s)) (kv_disc s)).
-    destruct (tget2 R o (del_keys R (inner R (cd s)) (kv_disc s))) eqn:E; [|reflexivity].
-    assert (Hn : tget2 R o (del_keys R (inner R (cd s)) (kv_disc s)) <> None) by congruence.
-    apply del_keys_sub in Hn. apply D in Hn. rewrite tget2_inner in Hn.
+    fold (del_keys R (inner R (cd s0)) (kv_disc s0)).
+    destruct (tget2 R o (del_keys R (inner R (cd s0)) (kv_disc s0))) eqn:E; [|reflexivity].
+    assert (Hn : tget2 R o (del_keys R (inner R (cd s0)) (kv_disc s0)) <> None) by congruence.
+    apply del_keys_sub in Hn. apply D0 in Hn. rewrite tget2_inner in Hn.
     rewrite (del_keys_gone R _ _ _ Hn) in E. discriminate.
   Qed.
 
@@ -259,6 +263,9 @@ Section Proofs.
   Lemma delete_succeeds s R removed : trav U (store s) R <> None ->
     snd (step U self true s (ODel R removed true)) = ROk.
   Proof.
-    intros Ht. cbn [step]. unfold del_file. destruct (trav U (store s) R); [reflexivity | contradiction].
+    intros Ht. cbn [step]. rewrite del_file_unfold.
+    pose proof (init_chunk_pyramid_succeeds U s R Ht) as Hs.
+    destruct (trav U (store s) R); [|contradiction].
+    destruct (init_chunk_pyramid U s R) as [s0 okp]. cbn [snd] in Hs. subst okp. reflexivity.
   Qed.
 End Proofs.
